@@ -47,6 +47,7 @@ type Entry struct {
 	Expr  string `json:"expr"`
 	Var   string `json:"var,omitempty"`
 	NilCk bool   `json:"nil_compared,omitempty"`
+	SetIn string `json:"set_in,omitempty"` // kind "field": functions that assign the field (composite literal or assignment)
 	Count int    `json:"count"` // occurrences of the same key (same text twice in one function)
 	Lines []int  `json:"lines"` // informational only, never part of the key
 }
@@ -146,6 +147,58 @@ func main() {
 		}
 	}
 	sort.Strings(files)
+	// pre-pass: which functions set which struct field (composite literal key or `x.f = …`)
+	fieldSet := map[string]map[string]bool{}
+	noteField := func(name, fn string) {
+		if fieldSet[name] == nil {
+			fieldSet[name] = map[string]bool{}
+		}
+		fieldSet[name][fn] = true
+	}
+	for _, path := range files {
+		fset := token.NewFileSet()
+		f, err := parser.ParseFile(fset, path, nil, 0)
+		if err != nil {
+			continue
+		}
+		for _, d := range f.Decls {
+			fd, ok := d.(*ast.FuncDecl)
+			if !ok || fd.Body == nil {
+				continue
+			}
+			fn := funcName(fd)
+			ast.Inspect(fd.Body, func(n ast.Node) bool {
+				switch t := n.(type) {
+				case *ast.CompositeLit:
+					for _, el := range t.Elts {
+						if kv, ok := el.(*ast.KeyValueExpr); ok {
+							if id, ok := kv.Key.(*ast.Ident); ok {
+								noteField(id.Name, fn)
+							}
+						}
+					}
+				case *ast.AssignStmt:
+					for _, l := range t.Lhs {
+						if se, ok := l.(*ast.SelectorExpr); ok {
+							noteField(se.Sel.Name, fn)
+						}
+					}
+				}
+				return true
+			})
+		}
+	}
+	setIn := func(field string) string {
+		var l []string
+		for fn := range fieldSet[field] {
+			l = append(l, fn)
+		}
+		sort.Strings(l)
+		if len(l) > 6 {
+			l = append(l[:6], "…")
+		}
+		return strings.Join(l, ",")
+	}
 	for _, path := range files {
 		rel, _ := filepath.Rel(*repo, path)
 		fset := token.NewFileSet()
@@ -204,6 +257,7 @@ func main() {
 			}
 			// ---- nil sources
 			nilSources(fset, rel, fn, fd, add)
+			nilExprs(fset, rel, fn, fd, add, setIn)
 		}
 	}
 
@@ -326,4 +380,34 @@ func nilSources(fset *token.FileSet, rel, fn string, fd *ast.FuncDecl, add func(
 			add(&Entry{Kind: "nil", File: rel, Func: fn, Var: v, Expr: s, NilCk: nilck[v]}, defLine[v])
 		}
 	}
+}
+
+// nilExprs lists dereferences whose operand is not a plain variable: the result of a call
+// (`f().m()`), of an index expression (`m[k].f`) — kind "nilx" — and pointer-typed fields of the
+// receiver (`h.taskChan.m()`, kind "field", with the functions that assign the field: a field set
+// only by a constructor literal is never nil afterwards, one set by a goroutine may be).
+func nilExprs(fset *token.FileSet, rel, fn string, fd *ast.FuncDecl, add func(*Entry, int), setIn func(string) string) {
+	recv := ""
+	if fd.Recv != nil && len(fd.Recv.List) > 0 && len(fd.Recv.List[0].Names) > 0 {
+		recv = fd.Recv.List[0].Names[0].Name
+	}
+	ast.Inspect(fd.Body, func(n ast.Node) bool {
+		se, ok := n.(*ast.SelectorExpr)
+		if !ok {
+			return true
+		}
+		line := fset.Position(se.Pos()).Line
+		switch x := se.X.(type) {
+		case *ast.CallExpr:
+			// package-level constructors returning values (massutil.ZeroAmount().X) are as likely as methods; keep all
+			add(&Entry{Kind: "nilx", File: rel, Func: fn, Expr: text(fset, x)}, line)
+		case *ast.IndexExpr:
+			add(&Entry{Kind: "nilx", File: rel, Func: fn, Expr: text(fset, x)}, line)
+		case *ast.SelectorExpr:
+			if id, ok := x.X.(*ast.Ident); ok && recv != "" && id.Name == recv {
+				add(&Entry{Kind: "field", File: rel, Func: fn, Expr: text(fset, x), SetIn: setIn(x.Sel.Name)}, line)
+			}
+		}
+		return true
+	})
 }
